@@ -8,6 +8,7 @@ mod c01;
 mod c02;
 mod c03;
 mod c04;
+mod c05;
 mod c19;
 mod prog;
 
@@ -105,6 +106,7 @@ fn main() {
         "c02" => c02::run(&ctx),
         "c03" => c03::run(&ctx),
         "c04" => c04::run(&ctx),
+        "c05" => c05::run(&ctx),
         "c19" => c19::run(&ctx),
         "c19dump" => c19::dump(&ctx),
         _ => {
@@ -121,6 +123,7 @@ fn roles(args: &[String]) -> i32 {
         Some("c02-sender") => c02::role_sender(&args[1..]),
         Some("c03-holder") => c03::role_holder(&args[1..]),
         Some("c04-relay") => c04::role_relay(&args[1..]),
+        Some("c05-reader") => c05::role_reader(&args[1..]),
         Some("lsfd") => {
             // unrelated child: print inherited descriptors
             for (fd, t) in util::fd_table() {
